@@ -7,8 +7,8 @@ import (
 	"aaverif/internal/gen"
 	"aaverif/internal/netx"
 
-	tcpip "github.com/brewlin/net-protocol/protocol"
 	"github.com/brewlin/net-protocol/pkg/sleep"
+	tcpip "github.com/brewlin/net-protocol/protocol"
 	"github.com/brewlin/net-protocol/stack"
 )
 
